@@ -27,7 +27,12 @@ func FinalizeIssue(iss core.ZodRawIssue, ctx *core.ParseContext, config *core.Zo
 			}
 		}
 
-		if message == "" && config != nil {
+		if message == "" {
+			// Callers that have no configuration at hand pass nil; the global
+			// custom error map and locale still apply to their issues.
+			if config == nil {
+				config = core.Config()
+			}
 			if configMsg := ExtractConfigLevelError(iss, config); configMsg != "" {
 				message = configMsg
 			}
